@@ -292,8 +292,15 @@ def d3_checker(ctx, cls, appenders):
     # every normal path converts (no shortcut that returns the input as it is)
     param = [p for p in chk.params if p != 'self'][0]
     cfg = cfg_of(chk)
-    cv = [n for n in own_nodes(chk.node) if isinstance(n, ast.Assign) and isinstance(n.value, ast.Call)
-          and dotted(n.value.func) in ('np.asarray', 'np.array') and norm(n.targets[0]) == param]
+    # the value returned is, on every path, the result of a conversion of the input (whatever the names are)
+    retnames = {x.id for r in rets if r.value is not None for x in ast.walk(r.value) if isinstance(x, ast.Name)}
+
+    def is_conv(v):
+        return isinstance(v, ast.Call) and dotted(v.func) in ('np.asarray', 'np.array', 'numpy.asarray', 'numpy.array') and \
+            v.args and (param in names_in(v.args[0]) or retnames & names_in(v.args[0]))
+    cv = [n for n in own_nodes(chk.node) if isinstance(n, ast.Assign) and is_conv(n.value)
+          and norm(n.targets[0]) in retnames | {param}]
+    cv += [r for r in rets if is_conv(r.value)]
     nodes = {cfg.node_for(n) for n in cv}
     ok = bool(cv) and not cfg.can_reach(cfg.entry, cfg.exit, avoid=nodes, skip_labels=('exc',))
     ctx.decide(ok, 'R-DOM', 'D3', chk, cv[0] if cv else None, 'always-converts',
